@@ -164,7 +164,7 @@ def run_iteration(ip, st, fr, H, var, N, placeholders, region=None, cont=None):
 
 def merged_load(ip, outs, c0, tg, F):
     """value at tg at the end of the iteration, merged over (at most two complementary) paths."""
-    vals = [ip.load(s, tg) for s in outs]
+    vals = [ip.load(s, tg, log=False) for s in outs]
     if len(vals) == 1:
         return vals[0]
     if all(veq(vals[0], v, F) for v in vals[1:]):
@@ -255,7 +255,7 @@ def summarise_loop(ip, st, fr, H):
     for loc in carried:
         cell, fpath = loc
         try:
-            pv = ip.load(st, Target(cell, fpath))
+            pv = ip.load(st, Target(cell, fpath), log=False)
         except Undecided:
             continue
         pre[loc] = pv
@@ -555,7 +555,7 @@ def while_trip_count(ip, st, fr, H, var, region):
     syms = {}
     for loc in W:
         try:
-            pv = ip.load(st, Target(loc[0], loc[1]))
+            pv = ip.load(st, Target(loc[0], loc[1]), log=False)
         except Undecided:
             continue
         if pv[0] == "size":
@@ -575,6 +575,16 @@ def while_trip_count(ip, st, fr, H, var, region):
     for nm, (loc, which, orig) in syms.items():
         if which in (0, 2) and st.F.prove_ge(orig):
             sB.F.add_ge(Lin.sym(nm))
+    # candidate invariants of a slice variable consumed from the front (verified below from the
+    # strides): start >= original start, end == original end
+    guessed = []
+    for loc, v in ph.items():
+        if v[0] == "ref":
+            br = v[1].path[-1]
+            o = ip.load(st, Target(loc[0], loc[1]), log=False)[1].path[-1]
+            sB.F.add_ge(br[1] - o[1])
+            sB.F.add_eq(br[1] + br[2] - o[1] - o[2])
+            guessed.append(loc)
     for loc, v in ph.items():
         ip.store(sB, Target(loc[0], loc[1]), v)
     c0 = len(sB.conds)
@@ -593,7 +603,7 @@ def while_trip_count(ip, st, fr, H, var, region):
     env = {}
     steps = {}
     for nm, (loc, which, orig) in syms.items():
-        nv = ip.load(s1, Target(loc[0], loc[1]))
+        nv = ip.load(s1, Target(loc[0], loc[1]), log=False)
         if which == 0:
             if nv[0] != "size":
                 raise Undecided("counter became %s" % nv[0])
@@ -616,13 +626,20 @@ def while_trip_count(ip, st, fr, H, var, region):
     B = G0 - G1
     if (Gj - (G0 - B * v)) != ZERO:
         raise Undecided("loop condition is not linear in the iteration index")
+    for loc in guessed:
+        if (loc, 1) in steps and (loc, 2) in steps:
+            s1_, s2_ = steps[(loc, 1)][1], steps[(loc, 2)][1]
+            if not (st.F.prove_ge(s1_) and (s1_ + s2_) == ZERO):
+                raise Undecided("slice variable %r is not consumed from the front" % (loc,))
+        else:
+            raise Undecided("slice variable %r does not advance by a constant stride" % (loc,))
     affine = {}
     for loc, pv in ph.items():
         if pv[0] == "size" and (loc, 0) in steps:
             o, sp = steps[(loc, 0)]
             affine[loc] = ("size", o, sp)
         elif pv[0] == "ref" and (loc, 1) in steps and (loc, 2) in steps:
-            base = ip.load(st, Target(loc[0], loc[1]))[1]
+            base = ip.load(st, Target(loc[0], loc[1]), log=False)[1]
             affine[loc] = ("ref", base, steps[(loc, 1)], steps[(loc, 2)])
     F = st.F
     if not F.prove_ge(B - 1):
